@@ -148,6 +148,7 @@ func (a *Act) instr(st *State, b *ssa.BasicBlock, instr ssa.Instruction) {
 			a.mayPanic(st, "nilderef", in.Pos(), Not(Eq(lv.addr, "0")), "")
 		}
 		a.storeCheck(st, lv, in.Pos())
+		a.checkGuardedAccess(st, lv, true, in.Pos(), nil)
 		a.store(st, lv, a.valAs(st, in.Val))
 	case *ssa.UnOp:
 		a.unop(st, in)
@@ -245,6 +246,7 @@ func (a *Act) instr(st *State, b *ssa.BasicBlock, instr ssa.Instruction) {
 			results[i] = a.valAs(st, r)
 		}
 		a.atReturn(st, in, results)
+		a.checkLockBalance(st, in.Pos())
 		a.rets = append(a.rets, retEdge{st: st.copy(), results: results})
 	case *ssa.If:
 		c := a.val(in.Cond)
@@ -306,6 +308,7 @@ func (a *Act) unop(st *State, in *ssa.UnOp) {
 		t := a.load(st, lv)
 		a.setVal(in, t)
 		a.assumeWF(st, in.Type(), a.vals[in], 1)
+		a.checkGuardedAccess(st, lv, false, in.Pos(), in)
 		if lv.kind == lvField {
 			// the enclosing heap-resident struct satisfies its type invariant
 			b := lv.base
@@ -558,6 +561,7 @@ func (a *Act) lookup(st *State, in *ssa.Lookup) {
 		if isInterface(xt.Key()) {
 			k = tr.eng.sorts.mkVal(in.Index.Type(), k)
 		}
+		a.checkMapAccess(st, in.X, false, in.Pos())
 		dom, val, _ := tr.mapComps(xt)
 		present := tr.define("present", "Bool", And(Not(Eq(m, "0")), tr.read(tr.heapOf(st, dom), m, k)))
 		v := Ite(present, tr.read(tr.heapOf(st, val), m, k), tr.eng.sorts.zero(xt.Elem()))
@@ -582,7 +586,7 @@ func (a *Act) lookup(st *State, in *ssa.Lookup) {
 // designates an element of a value container.
 func (a *Act) storeCheck(st *State, lv *LV, pos token.Pos) {
 	if lv.kind == lvElem && a.tr.frameMode && isValueElem(lv.typ) {
-		a.oblige(st, "frame/store", pos, "true", a.tr.writable(lv.arr), map[string]Term{"target": lv.arr})
+		a.oblige(st, "frame/store", pos, "true", a.tr.writableAt(st, lv.arr), map[string]Term{"target": lv.arr})
 	}
 }
 
@@ -609,9 +613,10 @@ func (a *Act) mapUpdate(st *State, in *ssa.MapUpdate) {
 		v = tr.eng.sorts.mkVal(in.Value.Type(), v)
 	}
 	a.mayPanic(st, "nilmap", in.Pos(), Not(Eq(m, "0")), "")
+	a.checkMapAccess(st, in.Map, true, in.Pos())
 	dom, val, ln := tr.mapComps(mt)
 	if tr.frameMode && dom.value {
-		a.oblige(st, "frame/store", in.Pos(), "true", tr.writable(m), map[string]Term{"target": m})
+		a.oblige(st, "frame/store", in.Pos(), "true", tr.writableAt(st, m), map[string]Term{"target": m})
 	}
 	was := tr.read(tr.heapOf(st, dom), m, k)
 	oldLen := tr.read(tr.heapOf(st, ln), m)
@@ -624,7 +629,7 @@ func (a *Act) mapDelete(st *State, mt *types.Map, m, k Term, pos token.Pos) {
 	tr := a.tr
 	dom, _, ln := tr.mapComps(mt)
 	if tr.frameMode && dom.value {
-		a.oblige(st, "frame/store", pos, Not(Eq(m, "0")), tr.writable(m), map[string]Term{"target": m})
+		a.oblige(st, "frame/store", pos, Not(Eq(m, "0")), tr.writableAt(st, m), map[string]Term{"target": m})
 	}
 	was := And(Not(Eq(m, "0")), tr.read(tr.heapOf(st, dom), m, k))
 	oldLen := tr.read(tr.heapOf(st, ln), m)
@@ -653,6 +658,7 @@ type rangeInfo struct {
 
 func (a *Act) rangeInit(st *State, in *ssa.Range) {
 	a.vals[in] = "0"
+	a.checkMapAccess(st, in.X, false, in.Pos())
 }
 
 // next models one step of a map (or string) iteration. Map iteration visits an
